@@ -3,6 +3,7 @@ use crate::Args;
 pub mod c04;
 pub mod c05;
 pub mod c08;
+pub mod c07;
 pub mod ops;
 pub mod c10;
 pub mod c11;
@@ -18,6 +19,7 @@ pub fn run(args: &Args) -> i32 {
         "C04" => c04::run(args),
         "C05" => c05::run(args),
         "C08" => c08::run(args),
+        "C07" => c07::run(args),
         "C01" | "C02" | "C03" | "C06" | "C09" => ops::run(args),
         "C10" => c10::run(args),
         "C11" => c11::run(args),
